@@ -46,6 +46,8 @@ pub struct Report {
     pub samples: Vec<String>,
     pub exhaustive: bool,
     only_case: Option<String>,
+    /// the property whose check is running (failed oracles of multi-property contracts are attributed, see class_relevant)
+    check_prop: String,
 }
 
 impl Report {
@@ -63,6 +65,9 @@ impl Report {
         true
     }
     pub fn fail(&mut self, class: &str, input: &str, message: String) {
+        if !self.check_prop.is_empty() && !class_relevant(self.name, class, &self.check_prop) {
+            return;
+        }
         // keep one representative per class and at most 25 in total
         if self.failures.len() < 25 && self.failures.iter().filter(|f| f.class == class).count() < 3 {
             self.failures.push(Failure { class: class.to_string(), input: input.to_string(), message });
@@ -79,6 +84,7 @@ impl Report {
         }
         let res = catch_unwind(AssertUnwindSafe(|| {
             let mut tmp = Report::new(self.name, self.function, self.props, None);
+            tmp.check_prop = self.check_prop.clone();
             f(&mut tmp);
             tmp
         }));
@@ -107,6 +113,7 @@ impl Report {
             samples: vec![],
             exhaustive: true,
             only_case,
+            check_prop: String::new(),
         }
     }
 }
@@ -305,6 +312,63 @@ fn jesc(s: &str) -> String {
     o
 }
 
+/// Attribution of the multi-property contracts: the cross-product and corner-case contracts run one battery of
+/// oracles per expansion; a failed oracle is reported under the properties its statement belongs to, not under
+/// every property whose check happens to run the contract. Classes that are not listed concern every property
+/// (the expansion is rejected, does not parse, panics, or has the wrong overall shape).
+pub fn class_relevant(contract: &str, class: &str, prop: &str) -> bool {
+    // a few per-property contracts are run by several checks as well
+    if contract == "c16_param_names" && prop == "C15" {
+        return class == "panic"; // C15 only asks that nothing panics; the names themselves are C16 / C01
+    }
+    if contract == "c04_impl_header_bounds" && prop == "C19" {
+        return matches!(class, "thread-safety-bounds" | "impl-generics" | "unexpected-error" | "unparsable"); // C19 is about the spelling of the fixed bounds
+    }
+    if contract == "c07_dependency_inversion" && prop == "C19" {
+        return matches!(class, "inversion-call" | "block-call" | "selector-bound" | "impl-receiver" | "target-receiver-typed-self" | "further-dependencies" | "target-generics" | "selector-trait" | "unexpected-error" | "unparsable"); // the spelled-out paths and reserved names
+    }
+    if contract == "c13_trait_visibility" && prop == "C08" {
+        return !matches!(class, "target-trait-visibility"); // C08 is about modules; the delegation-target trait belongs to C13
+    }
+    if !(contract.starts_with("cx_") || contract.starts_with("cz_")) {
+        return true;
+    }
+    let props: &[&str] = match class {
+        "fn-not-a-prefix" | "module-not-first" | "module-header" | "module-items" | "inherent-impl" | "unsafe-on-inherent-impl" | "impl-inner-attribute-dropped" => &["C02"],
+        "trait-visibility" | "re-export" => &["C13", "C08"],
+        "target-trait-visibility" | "selector-trait-visibility" => &["C13"],
+        "method-count" => &["C01", "C03", "C06", "C07", "C08", "C09"],
+        "visibility" => &["C09", "C13"],
+        "trait-generics" => &["C03", "C05", "C09"],
+        "method-generics" | "predicate-dropped" | "predicate-added" | "impl-where" | "parameter-types" | "return-type" | "qualifiers" | "trait-arguments" | "module-generic-name-clash"
+        | "nodeps-elided-return-rebinds" | "undeclared-lifetime-in-header" | "uninferable-generic-not-forwarded" | "deps-generic-still-referenced" | "where-clause-split" | "relaxed-where-on-method"
+        | "module-sibling-generic" | "impl-header-lifetime-after-type" | "impl-header-default" => &["C03", "C06", "C09"],
+        "mock-attributes" => &["C10", "C17"],
+        "nested-attribute" | "blanket-generic" | "by-value-through-as-ref" | "impl-trait-in-header" | "fragment-dependency-taken-as-concrete" => &["C05", "C03"],
+        "async-trait-reapplied" | "impl-attributes" => &["C12", "C18"],
+        "foreign-attribute-on-trait" | "mirrored-attributes" | "target-trait-method-attributes" | "param-cfg-stripped" | "generic-param-cfg" => &["C18"],
+        "trait-attributes" | "method-attributes" | "trait-inner-attribute-dropped" | "trait-header" | "method-signature" => &["C09", "C18"],
+        "pattern-left" | "name-clash" | "renamed" | "raw-identifier-shadows-function" | "raw-identifier-bound-twice" => &["C16", "C01", "C03"],
+        "receiver" | "target-receiver" | "deps-lifetime-lost" | "wrapped-reference-dependency-by-value" | "dyn-elided-borrow-from-deps" | "static-elided-return-ambiguous" | "impl-block-method-generic-lifted" => &["C01", "C03", "C04", "C07"],
+        "async-signature" | "target-async" | "target-send-bound" | "never-type-in-output" => &["C12", "C19"],
+        "await" => &["C12", "C01"],
+        "self-type" => &["C04", "C05", "C06", "C10"],
+        "thread-safety-bounds" | "fixed-bounds" | "relaxed-bound-required" => &["C04", "C06", "C19"],
+        "bounds-mismatch" => &["C04", "C01", "C07"],
+        "unimock-parameters" => &["C11"],
+        "method-name" | "arity" | "body-shape" | "callee" | "arguments" | "forwarding-call" | "forwarding-call-ambiguous" => &["C01", "C06", "C07", "C19"],
+        "method-list" | "fragment-body-not-understood" => &["C08", "C01", "C03"],
+        "trait-name-clashes-inside-module" => &["C08"],
+        "provider-bound" | "provider-extra-bounds" | "supertrait-not-provable" => &["C06", "C07", "C19"],
+        "target-method-count" => &["C07"],
+        "selector-trait-parameter-name" => &["C07", "C19"],
+        "duplicate-option-last-wins" => &["C17"],
+        "missing-comma-accepted" | "self-receiver-accepted" | "wrong-diagnostic" => &["C15"],
+        _ => return true,
+    };
+    props.contains(&prop)
+}
+
 pub fn all_contracts() -> Vec<Contract> {
     let mut v = vec![];
     v.extend(c_opts::contracts());
@@ -353,6 +417,9 @@ pub fn main() {
             }
         }
         let mut r = Report::new(c.name, c.function, c.props, case.clone());
+        if case.is_none() {
+            r.check_prop = prop.clone();
+        }
         let res = catch_unwind(AssertUnwindSafe(|| (c.run)(&ctx, &mut r)));
         if let Err(e) = res {
             let msg = e.downcast_ref::<String>().cloned().or_else(|| e.downcast_ref::<&str>().map(|s| s.to_string())).unwrap_or_default();
